@@ -28,7 +28,7 @@ SPECS = {
         'assumptions': _EDIT_ASSUME + ['MemoryError/KeyboardInterrupt style asynchronous failures are not injected (pfst does not promise rollback for them)'],
     },
     'C02': {
-        'engine': 'editsim', 'mod': 'sim.engines', 'quick': 6000, 'thorough': 90000, 'level': 'exploration',
+        'engine': 'editsim', 'mod': 'sim.engines', 'quick': 12000, 'thorough': 120000, 'level': 'exploration',
         'rule': 'one evaluation = one seeded run: program + history of 2-10 ops mixing structured edits with read-only '
                 'query bursts (cache warming on seeded node subsets) and long-lived FSTView handles; after edits (every '
                 'step, every third step, or only at the end - a swarm knob, so cold and warm caches are both explored) ~70 '
